@@ -67,6 +67,20 @@ CHECKS = {
         note="Integer masses / costs (or costs / 7); dual potentials for recorded instances come from an independent HiGHS "
              "solve and are only trusted after TLC accepted them.",
         tech="TLA+ specification of the transportation LP with TLC-enumerated optima + certificate validation of recorded runs"),
+    "C08": dict(
+        cat="model_checking", ref="5 (C08), 4.12",
+        text="Measure.tla is the group of re-encodings of a finite measure (scale, zero-weight padding, reordering, splitting a "
+             "point into duplicates, merging); TLC proves on the bounded model that every reachable encoding denotes the same "
+             "measure and that the six base measures are pairwise different, and emits the reachable encodings. Protocol.tla "
+             "histories over MEASURES (fit once, then transforms interleaved with memory_size / chunk-size knob changes, equal "
+             "distributions inside one batch) are instantiated with random encodings carried as lists, generators and sparse "
+             "matrices (explicit zeros, duplicated columns) for LOT_exact (3 input methods), LOT_sinkhorn, "
+             "HeuristicLinearAlgebra, SinkhornVectorizer and ApproximateWassersteinVectorizer, cosine and euclidean; "
+             "Trace_Protocol.tla decides each recorded history with the memo keyed by measure.",
+        note="Relational oracle; generic support vectors (unique optimal plan almost surely); normalisation powers other than 1 are "
+             "documented as scale dependent and outside the claim; the full-rank isometry clause is checked numerically in the "
+             "thorough tier only.",
+        tech="TLA+ specification of the re-encoding group + protocol trace validation with the memo keyed by measure"),
     "C09": dict(
         cat="model_checking", ref="5 (C09), 4.9",
         text="BPE.tla: training as a nondeterministic merge machine with the contraction loop transcribed (loop variable "
